@@ -151,8 +151,12 @@ func (c *rebComp) Gen(rng *rand.Rand, idx int, tier string, targeted bool) hlib.
 				hs, w = 1, weightChoices[rng.Intn(len(weightChoices))]
 			}
 			h.Ops = append(h.Ops, []int64{0, k, hs, w})
-		case r < 55:
+		case r < 49:
 			add(1 + int64(rng.Intn(8)))
+		case r < 55: // an upsert while the meter factory fails: of a new server (refused, nothing changes) or a known one
+			k := 1 + int64(rng.Intn(8))
+			hs, w := genWeight(rng)
+			h.Ops = append(h.Ops, []int64{4, k, hs, w})
 		case r < 85 && len(present) > 0:
 			i := rng.Intn(len(present))
 			h.Ops = append(h.Ops, []int64{1, present[i]})
@@ -312,7 +316,7 @@ func (c *rebComp) Run(h *hlib.History) ([]hlib.Mon, bool) {
 	}
 	for _, op := range h.Ops {
 		switch {
-		case len(op) == 4 && op[0] == 0 && op[1] >= 0:
+		case len(op) == 4 && (op[0] == 0 || op[0] == 4) && op[1] >= 0:
 		case len(op) == 2 && op[0] == 1 && op[1] >= 0:
 		case len(op) >= 1 && op[0] == 2 && (len(op)-1)%3 == 0:
 		case len(op) == 2 && op[0] == 3 && op[1] >= 0:
@@ -334,8 +338,12 @@ func (c *rebComp) Run(h *hlib.History) ([]hlib.Mon, bool) {
 	}
 	metersOf := map[int64][]*scriptMeter{} // meters in creation order, per key (one per shadow record)
 	curKey := int64(-1)
+	failMeter := false
 	rb, err := roundrobin.NewRebalancer(rr,
 		roundrobin.RebalancerMeter(func() (roundrobin.Meter, error) {
+			if failMeter {
+				return nil, fmt.Errorf("meter backend unavailable")
+			}
 			m := &scriptMeter{}
 			metersOf[curKey] = append(metersOf[curKey], m)
 			return m, nil
@@ -376,9 +384,11 @@ func (c *rebComp) Run(h *hlib.History) ([]hlib.Mon, bool) {
 
 	for step, op := range h.Ops {
 		switch op[0] {
-		case 0: // Upsert
+		case 0, 4: // Upsert; 4: while the meter factory fails
 			k, has, w := op[1], op[2] != 0, op[3]
 			curKey = k
+			failMeter = op[0] == 4
+			_, known := cfgW[k]
 			var e error
 			if has {
 				calls++
@@ -390,10 +400,11 @@ func (c *rebComp) Run(h *hlib.History) ([]hlib.Mon, bool) {
 			curKey = -1
 			o, ws, order := observe(hlib.B2i(e != nil))
 			h.Obs = append(h.Obs, o)
-			wantErr := has && w < 0
+			wantErr := (has && w < 0) || (failMeter && !known)
 			if wantErr != (e != nil) {
-				hit("C02", step, "membership: UpsertServer(%d, has=%v, w=%d) returned %v", k, has, w, e)
+				hit("C02", step, "membership: UpsertServer(%d, has=%v, w=%d, meter factory failing=%v) returned %v", k, has, w, failMeter, e)
 			}
+			failMeter = false
 			if e == nil {
 				_, existed := cfgW[k]
 				switch {
@@ -608,11 +619,14 @@ func (c *rebComp) Describe(h *hlib.History) interface{} {
 	for i, op := range h.Ops {
 		var s string
 		switch op[0] {
-		case 0:
+		case 0, 4:
 			if op[2] != 0 {
 				s = fmt.Sprintf("Upsert(%d, Weight(%d))", op[1], op[3])
 			} else {
 				s = fmt.Sprintf("Upsert(%d)", op[1])
+			}
+			if op[0] == 4 {
+				s += "[meter factory fails]"
 			}
 		case 1:
 			s = fmt.Sprintf("Remove(%d)", op[1])
